@@ -574,6 +574,11 @@ def _operator_table(fn: FunctionInfo) -> Dict[str, Tuple[str, bool, int]]:
                 if comp is not None:
                     break
             if comp is None:
+                tol = [x for r in n.body for x in ast.walk(r) if isinstance(x, ast.Call) and (call_name(x) or "") in ("isclose", "allclose", "approx", "is_close", "almost_equal")]
+                if tol:
+                    # a tolerant comparison is not the operator: recorded as its own pseudo-operator, which never equals the source operator
+                    table[lit] = ("~= (tolerant `%s`)" % call_name(tol[0]), True, n.lineno)
+                    continue
                 raise AnalysisError(f"D2: no comparison in the `{lit}` arm of {fn.key}")
             lroots = defs.roots(comp.left)
             rroots = defs.roots(comp.comparators[0])
@@ -659,7 +664,7 @@ def rule_d2(repo: Repo) -> List[Ob]:
             continue
         tables[qn] = (fn, t)
         for lit, (op, in_order, line) in sorted(t.items()):
-            eff = op if in_order else FLIP[op]
+            eff = op if in_order or op not in FLIP else FLIP[op]
             want = "!=" if lit == "/=" else lit
             ok = eff == want
             obs.append(Ob("D2-operators", f"utils/conditions.py::{qn}::{lit}", fn.relpath, line, fn.qualname, ok,
